@@ -40,6 +40,10 @@ isdigit_of = z3.Function("isdigit_of", S, z3.BoolSort())
 join_of = z3.Function("join_of", S, V.SeqVal, S)
 format_of = z3.Function("format_of", S, V.SeqVal, S)
 type_of = z3.Function("type_of", Val, Val)
+other_decode_ok = z3.Function("other_decode_ok", S, S, z3.BoolSort())
+other_decode = z3.Function("other_decode", S, S, S)
+bit_or = z3.Function("bit_or", z3.IntSort(), z3.IntSort(), z3.IntSort())
+bit_and = z3.Function("bit_and", z3.IntSort(), z3.IntSort(), z3.IntSort())
 opaque_contains = z3.Function("opaque_contains", S, S, z3.BoolSort())
 
 
@@ -546,6 +550,15 @@ def binop(I, op, a, b, node):
                 xv, yv = z3.simplify(x), z3.simplify(y)
                 if z3.is_int_value(xv) and z3.is_int_value(yv) and yv.as_long() >= 0:
                     return V.VInt(xv.as_long() ** yv.as_long())
+            if isinstance(op, (ast.BitOr, ast.BitAnd)):
+                xv, yv = z3.simplify(x), z3.simplify(y)
+                if z3.is_int_value(xv) and z3.is_int_value(yv):
+                    return V.VInt(xv.as_long() | yv.as_long() if isinstance(op, ast.BitOr) else xv.as_long() & yv.as_long())
+                if isinstance(op, ast.BitOr) and z3.is_int_value(xv) and xv.as_long() == 0:
+                    return V.VInt(yv)
+                if isinstance(op, ast.BitOr) and z3.is_int_value(yv) and yv.as_long() == 0:
+                    return V.VInt(xv)
+                return V.VInt((bit_or if isinstance(op, ast.BitOr) else bit_and)(xv, yv))
             raise Unsupported(f"int operator {type(op).__name__}", node)
         x = z3.ToReal(num_term(sa, "int")) if ka == "int" else Val.r(sa)
         y = z3.ToReal(num_term(sb, "int")) if kb == "int" else Val.r(sb)
@@ -581,7 +594,15 @@ def binop(I, op, a, b, node):
     if isinstance(op, ast.BitOr) and ka == "dict" and kb == "dict":
         return dict_update(I, sa, sb, node)
     if isinstance(op, (ast.BitOr, ast.BitAnd)) and ka == "int" and kb == "int":
-        raise Unsupported("bit operators", node)
+        x, y = z3.simplify(num_term(sa, "int")), z3.simplify(num_term(sb, "int"))
+        if z3.is_int_value(x) and z3.is_int_value(y):
+            return V.VInt(x.as_long() | y.as_long() if isinstance(op, ast.BitOr) else x.as_long() & y.as_long())
+        if isinstance(op, ast.BitOr):
+            if z3.is_int_value(x) and x.as_long() == 0:
+                return V.VInt(y)
+            if z3.is_int_value(y) and y.as_long() == 0:
+                return V.VInt(x)
+        return V.VInt((bit_or if isinstance(op, ast.BitOr) else bit_and)(x, y))
     I.throw("TypeError", f"unsupported operand type(s) for {type(op).__name__}")
 
 
@@ -1136,7 +1157,18 @@ def m_str_encode(I, s, args, kwargs, node):
 
 
 def m_bytes_decode(I, b, args, kwargs, node):
-    x = Val.bs(b)
+    x = z3.simplify(Val.bs(b))
+    enc = args[0] if args else kwargs.get("encoding", V.VStr("utf-8"))
+    pe = pystr(Val.s(z3.simplify(enc))) if V.ctor_name(z3.simplify(enc)) == "str" else None
+    if pe is None:
+        raise Unsupported("bytes.decode with a symbolic encoding", node)
+    if pe.lower().replace("_", "-") not in ("utf-8", "utf8"):
+        # another codec: an uninterpreted partial function of (encoding, bytes)
+        if I.choose(other_decode_ok(z3.StringVal(pe), x), "decode_ok"):
+            return V.VStr(other_decode(z3.StringVal(pe), x))
+        I.throw("UnicodeDecodeError", "codec can't decode")
+    if z3.is_app(x) and x.decl().name() == "utf8_enc":
+        return V.VStr(x.arg(0))            # decoding the utf-8 encoding of a str gives the str back
     if I.choose(utf8_ok(x), "utf8_ok"):
         return V.VStr(utf8_dec(x))
     I.throw("UnicodeDecodeError", "invalid utf-8")
